@@ -81,6 +81,14 @@ def sentinels():
                 continue
             if isinstance(val, (list, dict, set)):
                 snap['global:%s.%s' % (mname, aname)] = repr(val)[:2000]
+            elif isinstance(val, types.GeneratorType):
+                import inspect
+                snap['global:%s.%s' % (mname, aname)] = 'generator:%s:%s' % (inspect.getgeneratorstate(val), val.gi_frame.f_lasti if val.gi_frame is not None else 'done')
+            elif hasattr(val, '__next__') and hasattr(val, '__iter__') and not isinstance(val, (type, types.ModuleType)) and type(val).__module__ in ('builtins', 'itertools', 'collections'):
+                try:
+                    snap['global:%s.%s' % (mname, aname)] = 'iterator:%r' % (val.__reduce__(),)
+                except Exception:
+                    snap['global:%s.%s' % (mname, aname)] = 'iterator:%s' % type(val).__name__
             funcs = []
             if isinstance(val, types.FunctionType) and val.__module__ == mname:
                 funcs.append((aname, val))
@@ -187,6 +195,16 @@ def make_pool(ctx):
                 doc.recs.insert(i + 1, gen_doc.Rec(faults._FakeNode('ZZZ'), ['X'], list(doc.recs[i].chain)))
                 kinds.append('multi')
         pool.append(('gen:%s:%s' % (e['file'], ','.join(kinds) or 'valid'), doc.text()))
+    # always a 4010 278 request: its map is chosen at the BHT (BHT02 = 13), not at the GS - a second place where per-process state can leak
+    for e in entries:
+        if e['file'].startswith('278.') and e.get('tspc') == '13':
+            try:
+                doc = gen_doc.gen_document(e, rng.randrange(1 << 30), fill=0.3, opt_prob=0.4, maxrep=1, charset='E', n_st=2, n_gs=1)
+                if len(doc.recs) <= 300:
+                    pool.append(('directed:278-request:%s' % e['file'], doc.text()))
+            except gen_doc.GenFailed:
+                pass
+            break
     # the same data under both interchange versions (the extended character set differs: ^ and ` are 5010 only)
     if '834_lui_id' in fx and '834_lui_id_5010' in fx:
         for nm in ('834_lui_id', '834_lui_id_5010'):
